@@ -106,6 +106,10 @@ func c11GreedyCums(m []*big.Rat, n int, q float64) []float64 {
 
 func c11CLattice(n int, q float64, masses []*big.Rat) []float64 {
 	cs := []float64{1e-12, 1, 1.5}
+	// levels crowding 1 from below, down to the last float before 1
+	for _, d := range []float64{1e-3, 1e-6, 1e-9, 1e-12, 1e-14, 5 * 0x1p-53, 3 * 0x1p-53, 2 * 0x1p-53, 0x1p-53} {
+		cs = append(cs, 1-d)
+	}
 	for k := 1; k < 200; k++ {
 		cs = append(cs, float64(k)/200)
 	}
@@ -413,7 +417,7 @@ func c11Run(c *core.Ctx) {
 			r.Try(func() { c11Check(cs, r) })
 		}
 	}
-	r.Bound("n", fmt.Sprintf("n=1..30 and %v; %d values of q; ~200 + 3*(n+1) confidence levels", big, len(qs)))
+	r.Bound("n", fmt.Sprintf("n=1..30 and %v; %d values of q; ~210 + 3*(n+1) confidence levels (incl. 1-1e-3..1-1ulp)", big, len(qs)))
 	// SampleCI
 	sc := &C11Sample{}
 	vals := []float64{-1, 0, 2, 7, 7.5}
